@@ -9,6 +9,62 @@ VERIF = os.path.dirname(os.path.dirname(os.path.abspath(__file__)))
 TECH = 'Lean 4 theorems on a hand-written model + differential correspondence check + property probe'
 NOTE = 'Trusted: Lean kernel + {propext, Classical.choice, Quot.sound} (audited per theorem on every run); the hand-written model is tied to the C++ by a seeded differential test, not by proof; '
 CLAIMED = {
+    'C01': ('proof', TECH,
+            'Over RN (reals with absorbing NaN: every division/sqrt guard discharged) on the property\'s domain: toECEF lies on the ellipsoid '
+            'normal at height h; longitude recovered for lon in (-pi, pi] (atan2, antimeridian included, -pi maps to pi); the true latitude '
+            'is a fixed point of the iteration and the loop body contracts (q = 0.0099), so for fuel >= 8 the round trip is defined, exits, '
+            'and returns latitude within 1e-13 rad, exact longitude, height within 0.38 mm; reverse composition within 0.38 mm; output ranges; '
+            'the exit threshold is regenerated from the source and pinned (epsilon_bounds). 29 theorems in RomeaProofs/Properties/C01.lean. '
+            'Bit-exact differential over 8 named ellipsoids + random ones, boundary lattice incl. both ends of the antimeridian.',
+            NOTE + 'floating-point rounding in p/cos(lat) - N near the poles is covered by the tie and the probe only (worst observed 8.3e-5 m).',
+            'DESIGN.md section 6, C01'),
+    'C02': ('proof', TECH,
+            'Frame matrix is a proper rotation with columns east/north/up (HasDerivAt statements identify east and north with the '
+            'longitude/latitude derivatives of toECEF); Eigen\'s cofactor inverse of it is exactly its transpose; anchor -> origin, h above '
+            'the anchor -> (0,0,h); isometry; toENU/toECEF exact mutual inverses, composition with toWGS84 within 1 mm via C01; and the '
+            'history theorem for every op sequence and every scalar type: anchored flag, last anchor wins, reset gives the identity, '
+            'auto-anchor on the first geodetic conversion maps that point to the origin. 31 theorems in RomeaProofs/Properties/C02.lean. '
+            'Bit-exact differential on op sequences of one converter object.',
+            NOTE + 'that every local point of the property\'s domain lies in C01\'s domain is a hypothesis of the 1 mm composition theorem.',
+            'DESIGN.md section 6, C02'),
+    'C11': ('proof', TECH,
+            'Component selection (0,1,5) of mean and covariance and nothing else, embed-then-reduce = identity, symmetry and PSD preserved both '
+            'ways, pose action on the position (identity neutral, composition), SmartRotation R = RzRyRx, and the uncertainty ellipse: for '
+            'every symmetric PSD 2x2 covariance (rank-deficient included) and every eigen oracle meeting the contract (shown satisfiable '
+            'everywhere), major >= minor >= 0 and R diag(major^2, minor^2) R^T / sigma^2 = C. 20 theorems in RomeaProofs/Properties/C11.lean.',
+            NOTE + 'the attitude half of the composition law rests on C10\'s rotation round trip and is checked by the probe; Eigen\'s JacobiSVD '
+            'is an oracle parameter whose contract is monitored at run time.',
+            'DESIGN.md section 6, C11'),
+    'C12': ('proof', TECH,
+            'SmartRotation3D: reported derivative matrices = true derivative (HasDerivAt for every entry) + a specific non-zero constant term '
+            '(characterisation + negative witnesses: the OPEN known finding pinned by the repo\'s tests; any other deviation is a new '
+            'violation); dRTdAngles columns; pose covariance = J C J^T with J proved entry by entry (HasDerivAt) to be the Jacobian of the '
+            'library\'s own pose map after the repair 67bbb47 (witness theorems against the old Jacobian); PSD preserved; solver covariance = '
+            'variance * A (J^T J)^-1 A^T for diagonal A. 27 theorems in RomeaProofs/Properties/C12.lean. Probe: Richardson finite '
+            'differences of the implementation\'s own maps.',
+            NOTE + 'the angle rows of the Jacobian hold where the normalised output angle is not 0 (the library\'s map jumps 0 <-> 2pi there).',
+            'DESIGN.md section 6, C12'),
+    'C09': ('proof', TECH,
+            'For every eigen oracle meeting the symmetric-eigen contract and whatever neighbourhood the k-NN oracle returns: normal is unit, '
+            'faces the sensor (n.p <= 0), is the direction of least variance, curvature in [0, 1/DIM], planar neighbourhoods give the exact '
+            'surface normal and curvature 0, and rotating the cloud rotates every normal (simple smallest eigenvalue). 15 theorems in '
+            'RomeaProofs/Properties/C09.lean. Differential (driver: brute-force k-NN + Jacobi eigen-solver) within tolerance on all 8 point '
+            'types, 6 overloads, default/zero/junk-initialised normal sets.',
+            NOTE + 'Eigen\'s SelfAdjointEigenSolver and the kd-tree are oracle parameters (contract residual monitored at run time; kd-tree is C08).',
+            'DESIGN.md section 6, C09'),
+    'C06': ('other', 'Lean 4 theorems on the control skeleton of RANSAC/ICP + scripted-model differential + envelope probe (partial)',
+            'PARTIAL. Proved on the model of the control skeleton (geometry enters as oracle outputs): the adaptive iteration bound never '
+            'increases and stays below the cap, estimateModel terminates and succeeds iff some counted consensus exceeded the draw size, a '
+            'successful rigid-model estimate has a best set larger than the draw and at least twice it with RMSE < sigma and every member '
+            'within 3 sigma of the candidate that selected it, the one-to-one filter keeps the closest pair per source with no source '
+            'repeated or lost, the ICP flag is true iff the loop broke on the convergence test before the cap; literal thresholds are '
+            'regenerated from the source and pinned. 15 theorems in RomeaProofs/Properties/C06.lean. The headline claim (error <= 0.015 '
+            'over the whole displacement envelope; outliers never win) is NOT a theorem: it is probed on scan2d.txt (lattice + random '
+            'displacements) and on synthetic outlier sets.',
+            'Residue: numerical convergence of the full pipeline, the Mersenne-twister sampler, Eigen. One OPEN known finding: the (+,+,+) '
+            'corner of the envelope does not converge (recorded region tx,ty >= 0.175, theta >= 0.045). Category "other" so the claim is '
+            'not read as a proof of the envelope.',
+            'DESIGN.md section 6, C06'),
     'C14': ('proof', TECH,
             'Model of RayCasting (setOrigin/setEnd/next/cast, 2D/3D, float/double decision trees) on its own copy of the grid index map. '
             'Over the reals (origin != end inside the extent): the chain has L1+1 entries, starts in the origin cell, every step is '
